@@ -16,6 +16,30 @@ CLAIMS = {
    ref="5.6"),
 }
 
+CLAIMS["C02"] = dict(
+   text="Lean 4 theorems (Props/C02.lean): getMessage line = some m iff the ASCII hex digits of the line are 14/28 digits or 26/40 with a "
+        "12-digit prefix, the length matches the DF and the squitter parity rule holds (getMessage_iff, for every byte string); inserting "
+        "non-hex bytes or changing case never changes the digits; processing depends on the digits only; a non-frame leaves the whole "
+        "reader state unchanged. The model's get_message is tied to the code by q msg on every digit count, DF, length and decoration.",
+   note="trusted: Lean kernel and standard axioms; extractor for CRC constants; correspondence harness. Modelled, not verified: "
+        "String::from_utf8_lossy and char::to_digit(16) (ASCII only) - exercised with non-UTF-8 bytes and Unicode digits.",
+   technique="Lean 4 proof (iff theorem over all byte strings) + model/implementation correspondence", ref="5.2")
+CLAIMS["C03"] = dict(
+   text="Lean 4 theorems (Props/C03.lean): the u32 register divisions crc56/crc112 equal the bit-list CRC-24 with generator 0x1FFF409 for "
+        "all 2^32 / 2^88 data blocks (GF(2)-linearity + unit vectors evaluated in the kernel); get_icao is the AA field resp. AP xor CRC-24, "
+        "zero dropped; row_isolation, creates_if_absent and keys_nodup as one-step lemmas about every state lifted over segments.",
+   note="trusted: Lean kernel and standard axioms; CRC constants extractor; correspondence harness; Spec/Crc.lean as the reading of the "
+        "Mode S parity definition. Modelled, not verified: HashMap (association list with a proved distinct-keys invariant).",
+   technique="Lean 4 proof (refinement of the CRC registers to polynomial division; table invariants by induction) + correspondence", ref="5.3")
+CLAIMS["C04"] = dict(
+   text="Lean 4 theorems (Props/C04.lean): whatever get_message lets through has remainder zero (DF17/18) resp. zero upper 17 bits (DF11); "
+        "a DF11/17/18 frame failing that leaves the reader state unchanged at any point of any history; the remainder is linear, so any "
+        "detected error pattern on a valid squitter is rejected; every non-zero error confined to 24 consecutive bits and every double-bit "
+        "error within 112 bits has non-zero remainder (proved, not sampled).",
+   note="trusted: Lean kernel and standard axioms; CRC constants extractor; correspondence harness (all 1- and 2-bit errors of sample "
+        "squitters, bursts, heavy patterns, injected into histories).",
+   technique="Lean 4 proof (linearity and injectivity of the CRC register map; decide over the 111 double-bit distances) + correspondence", ref="5.4")
+
 NOT_YET = "check not built yet in this revision; listed so that the manifest stays truthful while the framework grows"
 
 def main():
